@@ -1,6 +1,7 @@
 package auth
 
 import (
+	"bytes"
 	"crypto/rand"
 	"encoding/hex"
 	"errors"
@@ -97,7 +98,7 @@ func (cr *CryptoSignAuthenticator) Authenticate(sid wamp.ID, details wamp.Dict, 
 			msg.MessageType(), client)
 	}
 
-	verify, err := cr.verifySignature(authRsp.Signature, key)
+	verify, err := cr.verifySignature(authRsp.Signature, key, challenge)
 	if err != nil {
 		return nil, err
 	}
@@ -119,7 +120,12 @@ func (cr *CryptoSignAuthenticator) Authenticate(sid wamp.ID, details wamp.Dict, 
 	return welcome, nil
 }
 
-func (cr *CryptoSignAuthenticator) verifySignature(signature string, publicKey []byte) (bool, error) {
+// verifySignature checks that signature is the challenge issued in this
+// handshake, signed with the private key belonging to publicKey. Checking the
+// signed message against the challenge is what ties the response to this
+// handshake: without it, any message ever signed by the user, such as a
+// response captured from another handshake, would be accepted.
+func (cr *CryptoSignAuthenticator) verifySignature(signature string, publicKey, challenge []byte) (bool, error) {
 	signatureBytes, err := hex.DecodeString(signature)
 	if err != nil {
 		fmt.Println(err)
@@ -130,12 +136,14 @@ func (cr *CryptoSignAuthenticator) verifySignature(signature string, publicKey [
 		return false, fmt.Errorf("signed message has invalid length (was %v, but should have been 96", len(signatureBytes))
 	}
 
-	signedOut := make([]byte, 32)
 	var pubkey [32]byte
 	copy(pubkey[:], publicKey)
-	_, verify := sign.Open(signedOut, signatureBytes, &pubkey)
+	signedMsg, verify := sign.Open(nil, signatureBytes, &pubkey)
+	if !verify {
+		return false, nil
+	}
 
-	return verify, nil
+	return bytes.Equal(signedMsg, challenge), nil
 }
 
 // TODO: Finish implementing extractChannelBinding.
